@@ -244,18 +244,17 @@ func answerClass(res string) string {
 // ---- sequential system ----
 
 type sys struct {
-	in        *inst
-	model     map[string][]byte
-	lastFault string          // most recent mutator fault that fired on this path ("" none)
-	lastKeys  map[string]bool // keys named by that failed call
-	truncated bool            // an enumeration of this path was cut short (initial build or Rebuild)
-	thorough  bool
-	r         *eng.Run
+	in          *inst
+	model       map[string][]byte
+	failedWrite map[string]string // per cache key: the failed write (fault kind) that named it and was not followed by a successful write of that key
+	truncated   bool              // an enumeration of this path was cut short (initial build or Rebuild)
+	thorough    bool
+	r           *eng.Run
 }
 
 func newSys(cfg string, thorough bool, r *eng.Run) eng.Sys {
 	c := parseCfg(cfg)
-	s := &sys{in: newInst(c, false), model: map[string][]byte{}, thorough: thorough, r: r}
+	s := &sys{in: newInst(c, false), model: map[string][]byte{}, failedWrite: map[string]string{}, thorough: thorough, r: r}
 	for k, v := range s.in.f.m {
 		s.model[k] = v
 	}
@@ -339,8 +338,7 @@ func copyMap(m map[string][]byte) map[string][]byte {
 
 // feats: k is the cache key the failing observation is about ("" = none).
 func (s *sys) feats(k, fspec string, extra ...string) []string {
-	f := []string{"layer", s.in.cfg.layer, "fault", faultKind(fspec), "earlier_failed_write", s.lastFault,
-		"key_named_by_failed_write", fmt.Sprint(s.lastKeys[k]),
+	f := []string{"layer", s.in.cfg.layer, "fault", faultKind(fspec), "failed_write_on_key", s.failedWrite[k],
 		"truncated_enumeration", fmt.Sprint(s.truncated), "errer", fmt.Sprint(s.in.cfg.errer), "viewer", fmt.Sprint(s.in.cfg.view)}
 	return append(f, extra...)
 }
@@ -384,7 +382,18 @@ func (s *sys) Do(op string) (string, *eng.Violation) {
 	}
 	f.flt = ft
 	before := copyMap(s.model)
+	nWr := f.calls["Put"] + f.calls["PutMany"] + f.calls["Delete"]
+	nBase := f.calls["Has"] + f.calls["Get"] + f.calls["GetSize"] + f.calls["View"]
 	res, cidBad := call(s.in.top, name, es, cbErr)
+	if s.in.cfg.layer == "bloom" && s.in.status != nil && len(es) == 1 && es[0].c.Defined() && s.in.status.BloomActive() {
+		if _, present := s.model[key(es[0].c)]; !present && faultClass(name) != "put" && faultClass(name) != "del" {
+			if f.calls["Has"]+f.calls["Get"]+f.calls["GetSize"]+f.calls["View"] > nBase {
+				s.r.Add("seq_bloom_false_positive_lookups", 1)
+			} else {
+				s.r.Add("seq_bloom_negative_hits", 1)
+			}
+		}
+	}
 	fired := ft != nil && ft.fired
 	f.flt = nil
 	if ft != nil {
@@ -431,7 +440,11 @@ func (s *sys) Do(op string) (string, *eng.Violation) {
 		if res != "ok" {
 			return obs, eng.V("mutator-error", name, fmt.Sprintf("%s returned %q without any base-store failure", op, res), s.feats(fk, fspec)...)
 		}
+		reached := f.calls["Put"]+f.calls["PutMany"]+f.calls["Delete"] > nWr
 		for k, e := range touched {
+			if reached { // a write answered from the cache alone repairs nothing
+				delete(s.failedWrite, k)
+			}
 			if name == "Delete" {
 				delete(s.model, k)
 			} else {
@@ -440,10 +453,8 @@ func (s *sys) Do(op string) (string, *eng.Violation) {
 		}
 		return obs, nil
 	}
-	s.lastFault = name + "!" + faultKind(fspec)
-	s.lastKeys = map[string]bool{}
 	for k := range touched {
-		s.lastKeys[k] = true
+		s.failedWrite[k] = name + "!" + faultKind(fspec)
 	}
 	if res != "err:injected" {
 		return obs, eng.V("base-error-swallowed", name, fmt.Sprintf("%s: the base store call failed but the cache layer returned %q", op, res), s.feats(fk, fspec)...)
@@ -504,7 +515,14 @@ func (s *sys) Key() string {
 	if s.in.ctorErr != nil {
 		return "ctor-error"
 	}
-	return "M" + s.modelStr() + " " + s.cacheStr()
+	cs := s.cacheStr()
+	if strings.Contains(cs, "recentEvict[") && !strings.Contains(cs, "recentEvict[]") {
+		s.r.Add("seq_transitions_into_state_with_2q_ghost_entries", 1)
+	}
+	if strings.Contains(cs, "frequent[") && !strings.Contains(cs, "frequent[]") && strings.Contains(cs, "recent[") && !strings.Contains(cs, "recent[]") {
+		s.r.Add("seq_transitions_into_state_with_both_2q_queues_filled", 1)
+	}
+	return "M" + s.modelStr() + " " + cs
 }
 
 func (s *sys) Check() *eng.Violation {
